@@ -95,6 +95,18 @@ def contracts():
                         invariant=['not exists(range(0, n), lambda j: %s)'
                                    % MATCH % ('name', B + '[j]')])],
             serves=('C07',), native=False))
+    # a name that is not a string (indexation takes ANY key: $[0], $[null],
+    # $[true], $[1.5]) is never validated successfully: no member of the
+    # host object is reachable through it
+    for exc in ('AttributeError', 'KeyError'):
+        cs.append(Contract(
+            Z + '_validate_name', name='yaqlized._validate_name/non-str/'
+            + exc, params=dict(name=TVal, settings=settings_of(),
+                               exception_cls=_cls(exc)),
+            requires=['name is None or isinstance(name, (bool, int, float))'],
+            raises={'AttributeError': 'True', exc: 'True'},
+            ensures=['False'], always_raises=True,
+            serves=('C07',), native=False))
     return cs
 
 
@@ -120,8 +132,11 @@ def sink_contracts():
             '"contract:yaqlized._auto_yaqlize" and calls[4][1][0] == '
             'calls[3][2] and result == calls[3][2])'],
         serves=('C07',), native=False))
+    # the key has NO declared type: it is an arbitrary value (`$[0]`,
+    # `$[null]`, `$[[1]]` ...), and validation must precede the host access
+    # whatever it is
     cs.append(Contract(
-        Z + 'indexation', params=dict(obj=TVal, key=TStr),
+        Z + 'indexation', params=dict(obj=TVal, key=TVal),
         ensures=[
             'len(calls) == 4',
             'implies(len(calls) == 4, calls[1][0] == '
@@ -161,6 +176,65 @@ def sink_contracts():
             'all([e[1][0] == value for e in calls if e[0] == '
             '"contract:yaqlization.yaqlize"])'],
         serves=('C07',), native=False))
+    return cs
+
+
+def setup_settings(world):
+    setup(world)
+    world.symbolic_sets = True
+
+
+def settings_contracts():
+    """yaqlization.build_yaqlization_settings: the policy sets the access
+    paths consult are exactly the host's lists, plus - unless switched off -
+    the TARGET of every remapping, whether it is given as a plain name or
+    as a (name, argument-mapping) pair: a remapped member is reachable
+    under its alias only."""
+    cs = []
+    Y = 'yaql.yaqlization.'
+
+    class remap_of:
+        is_factory = True
+
+        def __init__(self, kinds):
+            self.kinds = kinds
+
+        def __call__(self, name, path):
+            from vlib.pyvc.verify import make_param
+            d = {}
+            for i, k in enumerate(self.kinds):
+                t = make_param('T%d' % i, TStr, path)
+                d['alias%d' % i] = t if k == 's' else (
+                    t, make_param('M%d' % i, TVal, path))
+            return d
+    for kinds in ('', 's', 'p', 'sp', 'ps'):
+        targets = ['attribute_remapping["alias%d"]%s' % (
+            i, '' if k == 's' else '[0]') for i, k in enumerate(kinds)]
+        for flag in (True, False):
+            tg = targets if flag else []
+            member = ' or '.join(['(truthy(blacklist) and x in blacklist)'] +
+                                 ['x == val(%s)' % t for t in tg])
+            cs.append(Contract(
+                Y + 'build_yaqlization_settings',
+                name='yaqlization.build_settings/%s/%s' % (
+                    kinds or 'none', 'blacklist-targets' if flag else 'off'),
+                params=dict(whitelist=TVal, blacklist=TVal,
+                            attribute_remapping=remap_of(kinds) if kinds
+                            else None,
+                            blacklist_remapped_attributes=flag, x=TVal),
+                requires=['whitelist is None or not isinstance(whitelist, '
+                          '(bool, int, float, str))',
+                          'blacklist is None or not isinstance(blacklist, '
+                          '(bool, int, float, str))'],
+                ensures=[
+                    # for an arbitrary value x (ghost parameter)
+                    '(x in result["blacklist"]) == (%s)' % member,
+                    '(x in result["whitelist"]) == (truthy(whitelist) and '
+                    'x in whitelist)',
+                    'result["attributeRemapping"] == (attribute_remapping '
+                    'if attribute_remapping else {})'] + [
+                    '%s in result["blacklist"]' % t for t in tg],
+                serves=('C07',), native=False))
     return cs
 
 
